@@ -224,6 +224,22 @@ func c06Drive(c *mc.Ctx, mtu, pi, absID int, start c06Start, ops []c06Op) {
 	}
 	seq, ts := start.seq, start.ts
 	multi := false
+	// every packet handed out so far with its serialisation at that time: a later call must
+	// not change it (e.g. through a scratch buffer shared between calls)
+	type handed struct {
+		pk   *rtp.Packet
+		wire []byte
+		call string
+	}
+	var earlier []handed
+	recheck := func() {
+		for _, h := range earlier {
+			now, err := h.pk.Marshal()
+			if err != nil || !bytes.Equal(now, h.wire) {
+				c.Failf("earlier-packet-changed", "%s: a packet returned by %s now serialises to %s (err %v), it was %s when it was returned", hist(), h.call, hx(now), err, hx(h.wire))
+			}
+		}
+	}
 	checkCommon := func(i int, pk *rtp.Packet, what string) {
 		if pk.Version != 2 || pk.PayloadType != 96 || pk.SSRC != 0xDECAFBAD || len(pk.CSRC) != 0 {
 			c.Failf("fixed-fields", "%s: %s packet %d: version %d PT %d SSRC %#x CSRC %v", hist(), what, i, pk.Version, pk.PayloadType, pk.SSRC, pk.CSRC)
@@ -288,6 +304,14 @@ func c06Drive(c *mc.Ctx, mtu, pi, absID int, start c06Start, ops []c06Op) {
 				}
 				c06Wire(c, pk, hist, mtu, c06Payloaders[pi].name == "Opus" && n > int(call.budget), false)
 			}
+			recheck()
+			if len(earlier) < 64 {
+				for _, pk := range pkts {
+					if w, err := pk.Marshal(); err == nil && len(earlier) < 64 {
+						earlier = append(earlier, handed{pk, w, trace[len(trace)-1]})
+					}
+				}
+			}
 			ts += op.samples
 		case 1:
 			trace = append(trace, fmt.Sprintf("SkipSamples(%d)", op.samples))
@@ -308,6 +332,7 @@ func c06Drive(c *mc.Ctx, mtu, pi, absID int, start c06Start, ops []c06Op) {
 				checkCommon(i, pk, "padding")
 				c06Wire(c, pk, hist, 12+255, false, true)
 			}
+			recheck()
 		}
 	}
 	if c.Verbose() {
